@@ -76,6 +76,7 @@ class Report:
         self.disagreements = []      # dicts: kind, input, detail, cls
         self.notes = []
         self.broken = None           # description when the correspondence itself could not run
+        self._per_key = {}
 
     def case(self, key_obj, nontrivial=True, sample=None, n=1):
         self.evaluations += n
@@ -90,7 +91,12 @@ class Report:
 
     def disagree(self, kind, inp, detail, cls=None):
         self.dist['disagreement:' + kind] += 1
-        if len(self.disagreements) < 200:
+        # keep a few examples per (kind, class): the many repetitions of one known finding must not crowd out a
+        # disagreement of another kind or class (all of them are counted in `dist`)
+        key = (kind, json.dumps(cls or {}, sort_keys=True, default=str))
+        n = self._per_key.get(key, 0)
+        self._per_key[key] = n + 1
+        if n < 6 and len(self.disagreements) < 4000:
             self.disagreements.append({'kind': kind, 'input': inp, 'detail': detail, 'cls': cls or {}})
 
     def to_json(self):
